@@ -57,6 +57,6 @@ def queries(tier):
     return qs
 
 MANIFEST = {
-    "text": "Bounded symbolic check of the real push.c/pull.c: every event skeleton up to the stated length is executed from sock_init through the real entry points with symbolic message bytes; a monitor checks conservation (each accepted message in exactly one place), at-most-one delivery, per-connection order, back-pressure and the hand-off invariants after every event.",
+    "text": "Bounded symbolic check of the real push.c/pull.c: every event skeleton up to the stated length is executed from sock_init through the real entry points with symbolic message bytes; a monitor checks conservation (each accepted message in exactly one place), at-most-one delivery, per-connection order, back-pressure and the hand-off invariants after every event. Also the send buffer changed while it is full and its ring has rotated (nothing accepted is lost unless it no longer fits, exact count).",
     "note": "aio framework and messages are verified models (env_aio.c, env_msg.c); threads are not modelled: events are atomic and run to quiescence.",
 }
